@@ -205,6 +205,17 @@ def feature_circuits():
     add("equivalent_output_not_representative", ["a", "b"],
         [("o1", G.AND, ("a", "b")), ("o2", G.NOR, ("na", "nb")), ("na", G.NOT, ("a",)), ("nb", G.NOT, ("b",)), ("o3", G.OR, ("o1", "a"))],
         ["o1", "o3", "o2"], ["a", "b", "na", "nb", "o2", "o1", "o3"])
+    # several gates that are never true (resp. never false) without being literal duplicates of each other
+    add("constant_false_gates_not_duplicates", ["a", "b"],
+        [("na", G.NOT, ("a",)), ("f1", G.AND, ("a", "na")), ("f2", G.GT, ("b", "b")), ("zero", G.ALWAYS_FALSE, ()), ("z2", G.NOR, ("b", "nb")), ("nb", G.NOT, ("b",)),
+         ("t1", G.OR, ("a", "na")), ("t2", G.GEQ, ("b", "b")), ("o", G.OR, ("f1", "f2", "zero", "z2")), ("o2", G.AND, ("t1", "t2", "b"))],
+        ["o", "o2", "f1", "f2"], ["a", "b", "na", "nb", "f1", "f2", "zero", "z2", "t1", "t2", "o", "o2"])
+    # inputs that no gate reads, wired straight to outputs (rotated), next to ordinary logic
+    add("unread_inputs_passed_through", ["a0", "a1", "a2", "a3", "p", "q"], [("g", G.XOR, ("p", "q"))], ["a3", "a0", "a1", "a2", "g"])
+    # double negation sitting on a buffer, the outer negation used by an ordinary gate and as an output
+    add("double_negation_on_buffer", ["x", "y"],
+        [("b", G.IFF, ("x",)), ("n1", G.NOT, ("b",)), ("n2", G.NOT, ("n1",)), ("o", G.AND, ("n2", "y")), ("l", G.LIFF, ("y", "x")), ("m1", G.LNOT, ("l", "x")), ("m2", G.NOT, ("m1",))],
+        ["n2", "o", "m2"])
     add("no_outputs", ["a"], [("g", G.NOT, ("a",))], [])
     add("single_input_passthrough", ["a"], [], ["a"])
     # circuits that went through copy.deepcopy / pickle (the library deep-copies circuits itself): every gate type
